@@ -336,7 +336,7 @@ func (b *backend) handle(raw net.Conn) {
 			cs.run.Count("truncated_first_message_unjudged", 1)
 		case b.px.cfg.Kind == "tcpmux" && !cs.sv.passthrough && b.px.earlyInFlight.Load() > 0:
 			b.px.early.Range(func(k, _ any) bool { k.(*plan).failed.Store(true); return true })
-			cs.fail(nil, "tcpmux-early-data-lost", "backend %s: a user sent payload in the same write as its CONNECT request; the backend's stream starts %d bytes later / differently (got %x, read error %v)", b.id, hdrLen-n, hdr[:n], err)
+			cs.fail(nil, "tcpmux-early-data-lost", "backend %s: a user sent payload in the same write as its CONNECT request; what the backend receives first (%x, %d bytes, read error %v) is not the start of what the user wrote: the bytes sent together with the request are missing", b.id, hdr[:n], n, err)
 		case partial:
 			cs.fail(nil, "orderly-close-truncated-up", "backend %s: only %d of the %d bytes of a user's first message arrived before end-of-stream (%v)", b.id, n, hdrLen, err)
 		default:
